@@ -150,3 +150,109 @@ def widening(ctx, P, rule="WIDEN-FIRST", tus=None):
     ok = bool(mul) and all((m.dty or m.ty) in ("long", "int64_t", "long long") for m in mul)
     ctx.ob(rule, "pair_to_integer|wide-multiply", ok, tu.loc(fn.node), "a * N evaluated in 64-bit (type %s)" % [(m.ty) for m in mul])
     return n
+
+
+def early_exits(F, loop, tu):
+    """[(stmt, [enclosing if-conditions inside the loop])] for every break / continue / goto / return in the loop body
+    (breaks of nested loops / switches are attributed to the nested statement, not to `loop`)."""
+    out = []
+    body = loop.kids[-1] if loop.k != "DoStmt" else loop.kids[0]
+
+    def rec(n, depth_loops):
+        if n is None:
+            return
+        if n.k in ("ForStmt", "WhileStmt", "DoStmt", "SwitchStmt"):
+            for c in n.kids:
+                rec(c, depth_loops + 1)
+            return
+        if n.k in ("GotoStmt", "ReturnStmt") or (n.k in ("BreakStmt", "ContinueStmt") and depth_loops == 0):
+            conds = [estr(i.kids[0]) for i, br in F.enclosing_ifs(n) if i.b >= loop.b]
+            out.append((n, conds))
+        for c in n.kids:
+            rec(c, depth_loops)
+    rec(body, 0)
+    return out
+
+
+def finder_run(ctx, P, rule="IBD-RUN"):
+    ctx.rule(rule, "the IBD finder's sweep: per edge (in table order, stopping only at `time > max_time`) every ancestry segment of "
+                   "the child is clipped to the edge (max of lefts, min of rights) and queued, tsk_ibd_finder_record_ibd(parent) "
+                   "runs before tsk_ibd_finder_add_queued_ancestry(parent); record_ibd pairs EVERY segment already on the parent "
+                   "with EVERY queued segment (no early exit from either loop other than the error exit: the queue is in "
+                   "child-ancestry order, not coordinate order), intersects them with max/min and hands the same (node, node, left, "
+                   "right) to the filter and to add_segment; add_queued_ancestry forwards every queued segment and empties the queue")
+    tu = P.tus["tables"]
+    ERR = re.compile(r"^\(?ret\w* (!=|<) 0\)?$")
+    # --- run
+    run = P.need("tsk_ibd_finder_run", "tables")
+    F = Facts(P, run)
+    loops = [x for x in walk(run.body) if x.k == "ForStmt"]
+    ctx.need(len(loops) >= 2, "tsk_ibd_finder_run: edge loop and child-ancestry loop")
+    outer = loops[0]
+    ex = [(n, c) for n, c in early_exits(F, outer, tu)]
+    bad = [(n, c) for n, c in ex if not (c and all(ERR.match(t) for t in c[:1])) and not (n.k == "BreakStmt" and c and re.search(r"> self->max_time", c[0]))]
+    ctx.ob(rule, "run|exits", not bad, tu.loc(bad[0][0]) if bad else tu.loc(run.node),
+           "edge loop left early only on error or time > max_time" if not bad else "edge loop left early under %s" % (bad[0][1] or "no condition"))
+    order = []
+    for c in calls(outer.kids[-1]):
+        nm = callee(c)
+        if nm in ("tsk_ibd_finder_enqueue_segment", "tsk_ibd_finder_record_ibd", "tsk_ibd_finder_add_queued_ancestry"):
+            order.append((c.b, nm, c))
+    order.sort()
+    names = [o[1] for o in order]
+    ctx.ob(rule, "run|order", names == ["tsk_ibd_finder_enqueue_segment", "tsk_ibd_finder_record_ibd", "tsk_ibd_finder_add_queued_ancestry"],
+           tu.loc(run.node), "per edge: %s" % " -> ".join(names))
+    for b, nm, c in order:
+        a = [estr(y) for y in c.kids[1:]]
+        if nm != "tsk_ibd_finder_enqueue_segment":
+            ctx.ob(rule, "run|%s|arg" % nm, a == ["self", "parent"], tu.loc(c), "%s(%s)" % (nm, ", ".join(a)))
+            conds = [estr(i.kids[0]) for i, br in F.enclosing_ifs(c) if i.b >= outer.b]
+            ctx.ob(rule, "run|%s|unconditional" % nm, not conds, tu.loc(c), "runs for every edge" if not conds else "runs only under %s" % conds)
+    _clip(ctx, rule, tu, F, run, "run", r"\bleft\b", r"\bright\b")
+    # --- record_ibd
+    rec = P.need("tsk_ibd_finder_record_ibd", "tables")
+    F = Facts(P, rec)
+    loops = [x for x in walk(rec.body) if x.k == "ForStmt"]
+    ctx.need(len(loops) == 2, "tsk_ibd_finder_record_ibd: two nested loops")
+    for i, lp in enumerate(loops):
+        ex = early_exits(F, lp, tu)
+        bad = [(n, c) for n, c in ex if not (c and ERR.match(c[0]))]
+        ctx.ob(rule, "record_ibd|loop%d|exhaustive" % i, not bad, tu.loc(bad[0][0]) if bad else tu.loc(lp),
+               "no early exit other than the error exit" if not bad else
+               "loop over %s is left early under `%s`: later segments are never paired" % ("the parent's segments" if i == 0 else "the queue", (bad[0][1] or ["no condition"])[0]))
+    h0 = estr(loops[0].kids[0]) if loops[0].kids[0] is not None else ""
+    ctx.ob(rule, "record_ibd|outer", "ancestor_map_head[parent]" in h0 and "->next" in estr(loops[0].kids[3]), tu.loc(loops[0]),
+           "outer loop walks ancestor_map_head[parent] by ->next")
+    c1 = estr(loops[1].kids[2]) if loops[1].kids[2] is not None else ""
+    i1 = estr(loops[1].kids[0]) if loops[1].kids[0] is not None else ""
+    ctx.ob(rule, "record_ibd|inner", re.search(r"< self->segment_queue_size\)?$", c1) is not None and re.search(r"= 0\)?$", i1) is not None,
+           tu.loc(loops[1]), "inner loop covers segment_queue[0 .. segment_queue_size): `%s; %s`" % (i1, c1))
+    _clip(ctx, rule, tu, F, rec, "record_ibd", r"seg0->left", r"seg0->right")
+    # --- add_queued_ancestry
+    q = P.need("tsk_ibd_finder_add_queued_ancestry", "tables")
+    F = Facts(P, q)
+    loops = [x for x in walk(q.body) if x.k == "ForStmt"]
+    ctx.need(len(loops) == 1, "tsk_ibd_finder_add_queued_ancestry: one loop")
+    bad = [(n, c) for n, c in early_exits(F, loops[0], tu) if not (c and ERR.match(c[0]))]
+    ctx.ob(rule, "add_queued|exhaustive", not bad, tu.loc(loops[0]), "every queued segment is forwarded")
+    reset = [n for l, o, r, n in F.assigns if l == "self->segment_queue_size" and o == "=" and r == "0"]
+    ctx.ob(rule, "add_queued|reset", bool(reset) and all(n.b > loops[0].e for n in reset), tu.loc(q.node),
+           "segment_queue_size = 0 after the loop")
+    aa = F.calls_to("tsk_ibd_finder_add_ancestry")
+    ok = len(aa) == 1 and aa[0][0][:2] == ["self", "parent"] and [re.sub(r"^\w+(\.|->)", "", t) for t in aa[0][0][2:]] == ["left", "right", "node"]
+    ctx.ob(rule, "add_queued|args", ok, tu.loc(q.node), "add_ancestry(self, parent, seg.left, seg.right, seg.node): %s" % (aa[0][0] if aa else None))
+
+
+def _clip(ctx, rule, tu, F, fn, tag, left_pat, right_pat):
+    """the intersection is max(lefts), min(rights) of the two segments"""
+    mx = [(l, r, n) for l, o, r, n in F.assigns if o == "=" and re.search(r"TSK_MAX|\? .* : ", r) and re.search(r"left|_l$", l)]
+    mn = [(l, r, n) for l, o, r, n in F.assigns if o == "=" and re.search(r"TSK_MIN|\? .* : ", r) and re.search(r"right|_r$", l)]
+    src = {id(n): " ".join(tu.src(n).split()) for _, _, n in mx + mn}
+    okl = len(mx) == 1 and re.search(r"TSK_MAX\(", src[id(mx[0][2])]) and re.search(left_pat, src[id(mx[0][2])]) and \
+        len(re.findall(r"left", src[id(mx[0][2])].split("=", 1)[1])) == 2 and "right" not in src[id(mx[0][2])].split("=", 1)[1]
+    okr = len(mn) == 1 and re.search(r"TSK_MIN\(", src[id(mn[0][2])]) and re.search(right_pat, src[id(mn[0][2])]) and \
+        len(re.findall(r"right", src[id(mn[0][2])].split("=", 1)[1])) == 2 and "left" not in src[id(mn[0][2])].split("=", 1)[1]
+    ctx.ob(rule, "%s|clip-left" % tag, bool(okl), tu.loc(mx[0][2]) if mx else tu.loc(fn.node),
+           "left end of the intersection = TSK_MAX of the two lefts: %s" % (src[id(mx[0][2])] if mx else "not found"))
+    ctx.ob(rule, "%s|clip-right" % tag, bool(okr), tu.loc(mn[0][2]) if mn else tu.loc(fn.node),
+           "right end of the intersection = TSK_MIN of the two rights: %s" % (src[id(mn[0][2])] if mn else "not found"))
